@@ -493,6 +493,15 @@ impl Prop for C11 {
                 "[ \n\r\t]{0,6}".prop_map(|s| Case::Text { s }),
                 "[0-9 \n\r\t]{0,5}".prop_map(|s| Case::Text { s }),
                 "[ \n\r\t]{0,3}02eNpjYEAHjOgCAAA0AAI=[ \n\r\t]{0,3}".prop_map(|s| Case::Text { s }),
+                // a very short compressed payload (zlib header bytes favoured), properly base64-encoded
+                (proptest::collection::vec(prop_oneof![select(vec![0x78u8, 0x9c, 0x01, 0xda, 0x5e, 0x00, 0xff]), any::<u8>()], 0..=6), any::<bool>())
+                    .prop_map(|(bytes, v1)| {
+                        if v1 {
+                            Case::V1Text { s: hex::encode(&bytes) }
+                        } else {
+                            Case::Text { s: v2_string_from_compressed(&bytes) }
+                        }
+                    }),
                 "[ \n\r\t]{0,6}".prop_map(|s| Case::V1Text { s }),
                 ".{0,40}".prop_map(|s| Case::V1Text { s }),
                 "[0-9a-fA-F]{0,200}".prop_map(|s| Case::V1Text { s }),
